@@ -73,7 +73,11 @@ def main():
     A = Tensor.from_dok({(0, 1): 2.0, (1, 2): 3.0, (2, 0): 1.5}, dimensions=(3, 3), format="ds")
     x = Tensor.from_lol([1.0, 2.0, 4.0])
 
+    E = Tensor.from_dok({}, dimensions=(3, 3), format="ds")
+
     def make(kind):
+        if kind == "empty":
+            return tensora.evaluate("y(i) = A(i,j) * x(j)", "s", A=E, x=x), {}
         if kind == "sparse":
             return tensora.evaluate("y(i) = A(i,j) * x(j)", "s", A=A, x=x), {(0,): 4.0, (1,): 12.0, (2,): 1.5}
         if kind == "dense":
@@ -81,6 +85,8 @@ def main():
         return tensora.evaluate("s() = x(i) * x(i)", "", x=x), {(): 21.0}
 
     def derive(t, kind):
+        if kind == "empty":
+            return tensora.evaluate("z(i) = 2 * t(i)", "s", t=t)
         if kind == "scalar":
             return tensora.evaluate("z() = 2 * t()", "", t=t)
         return tensora.evaluate("z(i) = 2 * t(i)", "s" if kind == "sparse" else "d", t=t)
@@ -95,7 +101,7 @@ def main():
         return [a for a in out if a]
 
     # warm up the kernels (compilation allocates; keep it out of the histories)
-    for kd in ("sparse", "dense", "scalar"):
+    for kd in ("sparse", "dense", "scalar", "empty"):
         t, _ = make(kd)
         derive(t, kd)
         del t
